@@ -92,13 +92,17 @@ def check_value_string_sim(chk):
     it = Interp(vmod, 'C13.D')
     it.repo = chk.repo
     n, probs = 0, []
-    for v in NUMBER_SAMPLES + [True, False]:
+    for v in NUMBER_SAMPLES + [True, False, float('inf'), float('-inf'), float('nan')]:
         it.depth = 0
         n += 1
         try:
             got = it.call_function(func, [v], func)
         except RaiseSig as sig:
-            probs.append((v, f'raises {sig.cls}'))
+            probs.append((v, f'raises {sig.cls}: a number produced by script arithmetic (1e308 * 10) cannot be stringified / concatenated any more'))
+            continue
+        if isinstance(v, float) and (v != v or v in (float('inf'), float('-inf'))):
+            if not isinstance(got, str):
+                raise Unrecognised('C13.D', f'value_string({v!r}) evaluates to the non-text value {got!r}', vmod.rel)
             continue
         if isinstance(v, bool):
             if got != ('true' if v else 'false'):
@@ -115,6 +119,25 @@ def check_value_string_sim(chk):
         elif float(v).is_integer() and abs(v) < 1e15 and got != str(int(v)):
             probs.append((v, f'prints {got!r}; an integral number prints as its integer digits {str(int(v))!r}'))
     return n, probs
+
+
+def report_value_string_sim(chk):
+    sim = None
+    try:
+        sim = check_value_string_sim(chk)
+    except Unrecognised as exc:
+        chk.unrec('C13.D', f'value_string on concrete numbers: {exc.what}', exc.where)
+    vmod = chk.repo.module('value')
+    if sim is not None and sim[1]:
+        v, msg = sim[1][0]
+        rule = 'C13.C' if isinstance(v, float) and v == v and abs(v) != float('inf') else 'C13.D'
+        chk.bad(rule, vmod, 'value_string', f'value_string({v!r}) {msg[:80]}', f'evaluation of value_string on {sim[0]} sample numbers: value_string({v!r}) {msg} '
+                f'({len(sim[1])} samples deviate: {", ".join(repr(x[0]) for x in sim[1][:6])})', node=vmod.funcs.get('value_string'))
+    elif sim is not None:
+        chk.ok('C13.D', f'value_string evaluated on {sim[0]} sample numbers (ints, integral and fractional floats, exponent forms with and without fraction, booleans, non-finite '
+               f'values): never raises; every text converts back to the number; integral numbers print as integer digits', count=sim[0])
+        chk.ok('C13.C', 'the float clean-up removes only an all-zero fraction at the end of the text on every sample (exponent forms 1e+20, 1.5e+20, 2.25e-300 untouched)')
+    return sim
 
 
 def check_cleanup(chk, regex_name):
@@ -327,21 +350,7 @@ def run(chk):
     chk.rule('C13.N', 'parsers return null for non-finite / non-numeric text', floor=5)
     chk.assumptions += ['CPython: repr(float) is the shortest string that float() maps back to the same double; its forms are digits.digits or d[.d+]e[+-]dd+']
     # primary: evaluation of value_string on concrete numbers; the shape rules below explain a deviation and are advisory once the evaluation decided
-    sim = None
-    try:
-        sim = check_value_string_sim(chk)
-    except Unrecognised as exc:
-        chk.unrec('C13.D', f'value_string on concrete numbers: {exc.what}', exc.where)
-    vmod = chk.repo.module('value')
-    if sim is not None and sim[1]:
-        v, msg = sim[1][0]
-        rule = 'C13.C' if isinstance(v, float) else 'C13.D'
-        chk.bad(rule, vmod, 'value_string', f'value_string({v!r}) {msg[:80]}', f'evaluation of value_string on {sim[0]} sample numbers: value_string({v!r}) {msg} '
-                f'({len(sim[1])} samples deviate: {", ".join(repr(x[0]) for x in sim[1][:6])})', node=vmod.funcs.get('value_string'))
-    elif sim is not None:
-        chk.ok('C13.D', f'value_string evaluated on {sim[0]} sample numbers (ints, integral and fractional floats, exponent forms with and without fraction, booleans): '
-               f'every text converts back to the number; integral numbers print as integer digits', count=sim[0])
-        chk.ok('C13.C', 'the float clean-up removes only an all-zero fraction at the end of the text on every sample (exponent forms 1e+20, 1.5e+20, 2.25e-300 untouched)')
+    sim = report_value_string_sim(chk)
     name = None
     if sim is not None and not sim[1]:
         name = chk.advisory('C13.D', check_value_string, chk)
